@@ -1,0 +1,19 @@
+//go:build verif
+
+package stratumsrv
+
+import (
+	"net"
+
+	"github.com/virel-project/virel-blockchain/v3/config"
+)
+
+// Verification hook (build tag verif): a Conn over an arbitrary net.Conn, built exactly as StartStratum builds it.
+func VerifNewConn(conn net.Conn) *Conn {
+	return &Conn{
+		data: &ConnData{
+			Conn: conn,
+			Jobs: make([]*MinerJob, 0, config.STRATUM_JOBS_HISTORY),
+		},
+	}
+}
